@@ -551,6 +551,13 @@ def run_case(case):
               # known finding F14, recognised from the emitted text (see _struct_wire_split)
               v["sig"]["shape"] = "yosys_struct_whole_vs_fields"
               v["detail"]["split_struct_variable"] = split_struct
+            elif backend == "yosys" and fam == "paramgen":
+              lst = _yosys_list_first_module(text, top_t)
+              if lst:
+                # known finding F16 through another input: every element of a component list is
+                # instantiated with the FIRST element's module although classes / parameters differ
+                v["sig"]["shape"] = "yosys_comp_list_first_module"
+                v["detail"]["component_list"] = lst
             return v
     return None
 
@@ -655,6 +662,32 @@ def _struct_wire_split(text, undriven_msgs):
     if any(d.startswith(u + "__") for d in decl):
       return u                        # whole form undriven, field form exists
   return ""
+
+
+def _yosys_list_first_module(text, top):
+  """name of a list of sub-components of `top` whose elements differ in class or construct arguments while
+  the emitted text instantiates one and the same module for all of them (else None)"""
+  from pymtl3.dsl.Component import Component
+
+  def flat(v):
+    if isinstance(v, list):
+      for x in v:
+        yield from flat(x)
+    else:
+      yield v
+  for name, v in sorted(top.__dict__.items()):
+    if name.startswith("_") or not isinstance(v, list):
+      continue
+    elems = list(flat(v))
+    if len(elems) < 2 or not all(isinstance(x, Component) for x in elems):
+      continue
+    sigs = {(type(x).__name__, repr(x._dsl.args), repr(sorted(x._dsl.kwargs.items()))) for x in elems}
+    if len(sigs) < 2:
+      continue
+    mods = set(re.findall(r"^\s*(\w+)\s+%s(?:__\d+)+\s*$" % re.escape(name), text, re.M))
+    if len(mods) == 1:
+      return name
+  return None
 
 
 def _line_of(text, e):
